@@ -151,6 +151,8 @@ def run(m, fn, env, cls=None, inline=14, max_iter=12, filt=None):
     outs = it.run_function(fn, env=env)
     if it.imprecise:
         raise Imprecise('; '.join(sorted(set(it.imprecise))[:3]))
+    if it.unknown_branches:
+        raise Imprecise('the outcome of a test is not determined on this heap: ' + '; '.join(sorted(set(it.unknown_branches))[:3]))
     return outs
 
 
